@@ -156,6 +156,9 @@ def g4_projective_add(ctx, cfg_name, prog, rule='R-GUARD/G4'):
                     exits['lift_b'].append(n)
                     if args[0].endswith('::one'):
                         lift_const_z.append(n)
+                elif th == 'this' and c['name'] == 'from_affine' and args == [pb]:
+                    # lifting b through the conversion routine (its own identity handling is G5's subject)
+                    exits['lift_b'].append(n)
                 elif th == 'this' and c['name'] == 'multiply2' and args == [pa]:
                     exits['double_a'].append(n)
                 elif th.startswith('this->') and c['name'] in ARITH:
